@@ -812,3 +812,36 @@ pub fn c_collision_cases() -> Vec<Case> {
     );
     v
 }
+
+// ---------------------------------------------------------------------------------------------
+// Multi-version worlds: the same interface of one package referenced in two versions (imported;
+// in the `+export` variant the second version is also exported).  Each interface has a type and
+// a function using it; the second version only *adds* a type and a function (semver-compatible
+// versions must agree on what they share: wit-component resolves `@1.0.0` against `@1.0.1`).
+
+pub const VERSION_PAIRS: &[(&str, &str)] = &[
+    ("0.1.0", "0.2.0"),
+    ("1.0.0", "1.0.1"),
+    ("1.0.0-rc.1", "1.0.0-rc.2"),
+    ("1.0.0-rc.1", "1.0.0"),
+    ("1.0.0+b1", "1.0.0+b2"),
+    ("1.0.0-a.1", "1.0.0-a-1"),
+];
+
+pub fn multiversion_cases() -> Vec<Case> {
+    let mut v = Vec::new();
+    for (v1, v2) in VERSION_PAIRS {
+        for export in [false, true] {
+            let wit = format!(
+                "package foo:bar;\n\npackage my:dep@{v1} {{\n  interface a {{\n    record t {{ x: u32 }}\n    f: func(p: t) -> t;\n  }}\n}}\n\npackage my:dep@{v2} {{\n  interface a {{\n    record t {{ x: u32 }}\n    record t2 {{ x: u32, y: string }}\n    f: func(p: t) -> t;\n    g: func(p: t2) -> list<t2>;\n  }}\n}}\n\nworld w {{\n  import my:dep/a@{v1};\n  import my:dep/a@{v2};\n{}}}\n",
+                if export { format!("  export my:dep/a@{v2};\n") } else { String::new() }
+            );
+            v.push(Case::inline(
+                format!("multiversion:{v1}|{v2}{}", if export { ":import+export" } else { ":import" }),
+                "multiversion",
+                wit,
+            ));
+        }
+    }
+    v
+}
